@@ -40,7 +40,17 @@ impl LintContext {
             .chain(problem_tokens)
             .chain(sequel_tokens)
             .flat_map(|idx| document.get_token(idx))
-            .map(|t| t.to_fat(document.get_source()))
+            .map(|t| {
+                let mut fat = t.to_fat(document.get_source());
+
+                // Where the matching quote sits in the document is not part of the context:
+                // it is an index into the token list and moves whenever text is added earlier.
+                if let Some(quote) = fat.kind.as_mut_quote() {
+                    quote.twin_loc = None;
+                }
+
+                fat
+            })
             .collect();
 
         Self {
